@@ -126,7 +126,7 @@ fn con_key(c: &v1::Constraint) -> Result<ConKey, String> {
 }
 
 /// invariants of one instance state against the initial instance and the reference model
-fn check_state(inst: &v1::Instance, init: &v1::Instance, rm: &RefModel, init_evals: &[(Vec<(u64, f64)>, v1::Solution)]) -> Vec<(String, String)> {
+fn check_state(inst: &v1::Instance, init: &v1::Instance, rm: &RefModel, init_evals: &[(Vec<(u64, f64)>, Option<v1::Solution>)]) -> Vec<(String, String)> {
     let mut out = vec![];
     let mut all = vec![];
     let collect = |i: &v1::Instance, all: &mut Vec<ConKey>| -> Result<(), String> {
@@ -181,7 +181,23 @@ fn check_state(inst: &v1::Instance, init: &v1::Instance, rm: &RefModel, init_eva
     }
     // values and feasibility on every grid state
     for (st, base_sol) in init_evals {
-        let sol = match sdk(|| inst.evaluate(&mk_state(st)).map_err(|e| format!("{e:#}"))) {
+        let r = sdk(|| inst.evaluate(&mk_state(st)).map_err(|e| format!("{e:#}")));
+        // a state the initial instance rejects (it omits a variable some constraint uses) is rejected
+        // wherever that constraint currently sits
+        let Some(base_sol) = base_sol else {
+            match r {
+                Ok(Ok(_)) => {
+                    out.push(("evaluability-changed".into(), format!("evaluate at the incomplete state {st:?} succeeds now; the initial instance rejects it")));
+                    break;
+                }
+                Ok(Err(_)) => continue,
+                Err(p) => {
+                    out.push(("evaluate-panic".into(), format!("evaluate at {st:?} panicked: {p}")));
+                    break;
+                }
+            }
+        };
+        let sol = match r {
             Ok(Ok((s, _))) => s,
             Ok(Err(e)) | Err(e) => {
                 out.push(("evaluate-error".into(), format!("evaluate at {st:?} failed: {e}")));
@@ -258,14 +274,21 @@ fn transition(inst: &mut v1::Instance, rm: &mut RefModel, a: &Action) -> Vec<(St
     out
 }
 
-fn init_evals(init: &v1::Instance) -> Vec<(Vec<(u64, f64)>, v1::Solution)> {
-    grid_states()
+fn init_evals(init: &v1::Instance) -> Vec<(Vec<(u64, f64)>, Option<v1::Solution>)> {
+    let mut out: Vec<(Vec<(u64, f64)>, Option<v1::Solution>)> = grid_states()
         .into_iter()
         .map(|st| {
             let sol = init.evaluate(&mk_state(&st)).expect("ENGINE: initial instance must evaluate").0;
-            (st, sol)
+            (st, Some(sol))
         })
-        .collect()
+        .collect();
+    // incomplete states: each variable omitted in turn (accepted iff no constraint and not the objective uses it)
+    for omit in [1u64, 2, 7] {
+        let st: Vec<(u64, f64)> = [(1, 0.5), (2, 2.0), (7, -1.0)].into_iter().filter(|(k, _)| *k != omit).collect();
+        let sol = init.evaluate(&mk_state(&st)).ok().map(|r| r.0);
+        out.push((st, sol));
+    }
+    out
 }
 
 /// Replays one history from the initial instance, checking every transition and every state.
@@ -331,7 +354,7 @@ struct M {
     set: usize,
     init_removed: Vec<u64>,
     init: v1::Instance,
-    evals: Vec<(Vec<(u64, f64)>, v1::Solution)>,
+    evals: Vec<(Vec<(u64, f64)>, Option<v1::Solution>)>,
     ids: Vec<u64>,
     side: Arc<Mutex<Local>>,
 }
@@ -469,7 +492,7 @@ pub fn run(ctx: &Ctx) -> Finish {
     });
     Finish {
         level: "model_checking",
-        rule: "explicit-state breadth-first search (stateright) from each initial instance over the actions relax(id, reason in {a, empty string}, params in {none,{k:v}}), relax(id, a reason with leading and trailing whitespace) and restore(id) for every constraint id and the unknown id 99; the instance message IS the state (dedup key = its bytes + reference model), so all histories of any length are covered; every transition is compared with a two-set reference model and every reachable state is checked: active+removed multiset of (id, function, equality, metadata) unchanged, ids partitioned, recorded reasons, and on all 27 grid states per-constraint values and feasible equal the initial instance's while feasible_relaxed follows the currently active constraints".into(),
+        rule: "explicit-state breadth-first search (stateright) from each initial instance over the actions relax(id, reason in {a, empty string}, params in {none,{k:v}}), relax(id, a reason with leading and trailing whitespace) and restore(id) for every constraint id and the unknown id 99; the instance message IS the state (dedup key = its bytes + reference model), so all histories of any length are covered; every transition is compared with a two-set reference model and every reachable state is checked: active+removed multiset of (id, function, equality, metadata) unchanged, ids partitioned, recorded reasons, and on all 27 grid states per-constraint values and feasible equal the initial instance's while feasible_relaxed follows the currently active constraints; three incomplete states (each variable omitted) are accepted or rejected exactly as by the initial instance".into(),
         bounds: json!({"constraint_sets": sets.len(), "constraints_per_instance": if ctx.tier == Tier::Thorough { "3, 4 or 5" } else { "3 or 4" }, "initial_instances": "0,1,2,all initially removed", "actions_per_state": "6 per id incl. unknown id", "histories": "all lengths (full reachable state space)"}),
         exhaustive: true,
     }
